@@ -46,6 +46,14 @@ def model_loop(ctx, thorough):
                 raise MachineryError(f"the non-atomic variant of the pair model does not exhibit the outcome race ({rn.violated!r})")
             ctx.cov["non_atomic_variant_refuted_by"] = rn.violated + ": " + " -> ".join(l for l, _ in rn.trace[-7:])
             two_threads(ctx, thorough, extra)
+            if thorough:
+                # the repair proposed in /verif/proposed (the provider discards undefined local events): with it the pair satisfies
+                # every invariant without tolerating any crash signature - with one and with two user threads on the requestor
+                for sec in ((), ("release",)):
+                    rp = pair_model(ctx, thorough, (), second=sec, discard=True)
+                    if rp.violated:
+                        ctx.drifted(f"the proposed repair does not make the pair model ({'two' if sec else 'one'} user thread(s)) satisfy {rp.violated}")
+                ctx.cov["proposed_repair_checked_in_model"] = True
             return
         last = r.trace[-1][1]["nd"]
         labels = [l for l, _ in r.trace]
